@@ -258,7 +258,7 @@ def replay_known(ctx):
 def replay(ctx, path):
     """re-run the case lines of a replay file on the implementation and the model"""
     mod = load_check(ctx.prop)
-    if hasattr(mod, 'replay'):          # a property whose replay is not a case-by-case diff (C13: race-detector run)
+    if getattr(mod, 'replay', replay) is not replay:   # a property whose replay is not a case-by-case diff (C13: race-detector run); `from props import *` re-exports this very function
         return mod.replay(ctx, path)
     if not preamble(ctx, modules=getattr(mod, 'LEAN_MODULES', None)):
         return 2
